@@ -28,9 +28,13 @@ pub fn base_schedule() -> Vec<Ev> {
 
 /// The fair closing environment that follows the schedule (and every restart): honest signers
 /// resubmit in every cycle, a new immutable file appears, then a new epoch starts.
-pub fn closing() -> Vec<Ev> {
+pub fn closing(honest_once: bool) -> Vec<Ev> {
     use Ev::*;
-    let round = [Tick, SigAll(Ty::Msd), SigAll(Ty::Cdb), Tick, Quiesce];
+    let round = if honest_once {
+        [Tick, HonestSigs(Ty::Msd), HonestSigs(Ty::Cdb), Tick, Quiesce]
+    } else {
+        [Tick, SigAll(Ty::Msd), SigAll(Ty::Cdb), Tick, Quiesce]
+    };
     let mut v = vec![];
     for _ in 0..5 {
         v.extend(round.iter().cloned());
@@ -77,11 +81,21 @@ pub fn msd_only_schedule() -> Vec<Ev> {
     ]
 }
 
-pub fn run_with_cuts(scratch: &std::path::Path, history: &[Ev], cuts: &[Cut], msd_only: bool) -> CrashRun {
+pub fn run_with_cuts(scratch: &std::path::Path, history: &[Ev], cuts: &[Cut], msd_only: bool, honest_once: bool) -> CrashRun {
     let dir = fresh_dir(scratch);
     let rt = tokio::runtime::Builder::new_current_thread().enable_all().build().expect("tokio runtime");
     let hist_json = serde_json::to_value(history).unwrap();
     let cuts_json = serde_json::to_value(cuts).unwrap();
+    // in the honest-signer environment every signer sends its signature for an entity until it is
+    // acknowledged once, and never again
+    let mapped: Vec<Ev> = history
+        .iter()
+        .map(|e| match e {
+            Ev::SigAll(t) if honest_once => Ev::HonestSigs(*t),
+            other => other.clone(),
+        })
+        .collect();
+    let history: &[Ev] = &mapped;
     let res = rt.block_on(async {
         let mut w = World::new(dir.clone(), 3, msd_only).await;
         let ctl = w.ctl.clone();
@@ -103,7 +117,7 @@ pub fn run_with_cuts(scratch: &std::path::Path, history: &[Ev], cuts: &[Cut], ms
                     break;
                 }
                 in_closing = true;
-                queue = closing().into_iter().map(|e| (usize::MAX, e)).collect();
+                queue = closing(honest_once).into_iter().map(|e| (usize::MAX, e)).collect();
                 continue;
             };
             step += 1;
@@ -121,7 +135,7 @@ pub fn run_with_cuts(scratch: &std::path::Path, history: &[Ev], cuts: &[Cut], ms
                     found.push(Cut { event: i, point: p.to_string(), occurrence: o });
                 }
             }
-            let ctx = json!({"history": hist_json, "cuts": cuts_json, "msd_only": msd_only, "step": step, "event": ev, "crashed_here": crashed, "log": log});
+            let ctx = json!({"history": hist_json, "cuts": cuts_json, "msd_only": msd_only, "honest_once": honest_once, "step": step, "event": ev, "crashed_here": crashed, "log": log});
             if crashed {
                 crashes += 1;
                 log.push(format!("CRASH@{}#{} during {:?}", pending[0].point, pending[0].occurrence, ev));
@@ -136,14 +150,14 @@ pub fn run_with_cuts(scratch: &std::path::Path, history: &[Ev], cuts: &[Cut], ms
                     None => ctl.disarm(),
                 }
                 in_closing = true;
-                queue = closing().into_iter().map(|e| (usize::MAX, e)).collect();
+                queue = closing(honest_once).into_iter().map(|e| (usize::MAX, e)).collect();
             }
             violations.extend(check_store(&w, &mut chk, &ctx).await);
         }
         // progress: the rounds of the closing environment (a later immutable beacon, then a later
         // epoch) are certified and have their artifacts
         let tp = w.time_point().await;
-        let ctx = json!({"history": hist_json, "cuts": cuts_json, "msd_only": msd_only, "step": "end", "log": log});
+        let ctx = json!({"history": hist_json, "cuts": cuts_json, "msd_only": msd_only, "honest_once": honest_once, "step": "end", "log": log});
         let mut expected = vec![SignedEntityType::MithrilStakeDistribution(Epoch(*tp.epoch))];
         if !msd_only {
             expected.push(SignedEntityType::CardanoDatabase(mithril_common::entities::CardanoDbBeacon::new(*tp.epoch, tp.immutable_file_number)));
@@ -192,7 +206,8 @@ pub fn run(ctx: &Ctx) -> ! {
         let h: Vec<Ev> = serde_json::from_value(v["history"].clone()).expect("history");
         let cuts: Vec<Cut> = serde_json::from_value(v["cuts"].clone()).unwrap_or_default();
         let msd_only = v["msd_only"].as_bool().unwrap_or(false);
-        let r = run_with_cuts(&scratch, &h, &cuts, msd_only);
+        let honest_once = v["honest_once"].as_bool().unwrap_or(false);
+        let r = run_with_cuts(&scratch, &h, &cuts, msd_only, honest_once);
         eprintln!("replayed: {}", r.outcome);
         rep.eval();
         for v in r.violations {
@@ -223,8 +238,9 @@ pub fn run(ctx: &Ctx) -> ! {
         }
     }
     // recording runs: which cuts exist on each schedule; also the no-crash baseline must progress
-    let recs = par_map(&schedules, ctx.threads(), |_, (h, msd_only)| run_with_cuts(&scratch, h, &[], *msd_only));
-    let mut jobs: Vec<(usize, Vec<Cut>)> = vec![];
+    let recs = par_map(&schedules, ctx.threads(), |_, (h, msd_only)| run_with_cuts(&scratch, h, &[], *msd_only, false));
+    // (schedule, cuts, honest-once environment)
+    let mut jobs: Vec<(usize, Vec<Cut>, bool)> = vec![];
     for (si, r) in recs.iter().enumerate() {
         rep.eval();
         rep.outcome(&format!("baseline:{}", r.outcome));
@@ -240,7 +256,8 @@ pub fn run(ctx: &Ctx) -> ! {
             continue;
         }
         for c in &r.cuts {
-            jobs.push((si, vec![c.clone()]));
+            jobs.push((si, vec![c.clone()], false));
+            jobs.push((si, vec![c.clone()], true));
         }
         if si == 0 && ctx.tier == mc_core::Tier::Thorough {
             // repeated stops: after every first cut, every point again at its 1st and 2nd occurrence
@@ -249,7 +266,7 @@ pub fn run(ctx: &Ctx) -> ! {
             for ca in &r.cuts {
                 for p in &points {
                     for k in 1..=2u32 {
-                        jobs.push((0, vec![ca.clone(), Cut { event: usize::MAX, point: p.clone(), occurrence: k }]));
+                        jobs.push((0, vec![ca.clone(), Cut { event: usize::MAX, point: p.clone(), occurrence: k }], k == 2));
                     }
                 }
             }
@@ -257,13 +274,13 @@ pub fn run(ctx: &Ctx) -> ! {
     }
     rep.extra("schedules", json!(schedules.len()));
     rep.extra("cuts_on_base_schedule", json!(recs[0].cuts.iter().map(|c| format!("{}#{}@{}", c.point, c.occurrence, c.event)).collect::<Vec<_>>()));
-    let results = par_map(&jobs, ctx.threads(), |_, (si, cuts)| run_with_cuts(&scratch, &schedules[*si].0, cuts, schedules[*si].1));
+    let results = par_map(&jobs, ctx.threads(), |_, (si, cuts, honest)| run_with_cuts(&scratch, &schedules[*si].0, cuts, schedules[*si].1, *honest));
     let mut points_hit: std::collections::BTreeMap<String, u64> = Default::default();
-    for ((si, cuts), r) in jobs.iter().zip(results) {
+    for ((si, cuts, honest), r) in jobs.iter().zip(results) {
         rep.eval();
         rep.outcome(&r.outcome);
         if r.crashes == cuts.len() {
-            rep.nontrivial(&(si, serde_json::to_string(cuts).unwrap()));
+            rep.nontrivial(&(si, serde_json::to_string(cuts).unwrap(), honest));
             for c in cuts {
                 *points_hit.entry(c.point.clone()).or_default() += 1;
             }
@@ -272,7 +289,7 @@ pub fn run(ctx: &Ctx) -> ! {
             rep.add_extra("observation_runs_with_an_entity_certified_twice_after_crash", 1);
         }
         if rep.samples.len() < 4 && r.crashes > 0 && (rep.evaluations % 5 == 0 || rep.samples.is_empty()) {
-            rep.sample(json!({"schedule": schedules[*si].0, "msd_only": schedules[*si].1, "cuts": cuts, "outcome": r.outcome}));
+            rep.sample(json!({"schedule": schedules[*si].0, "msd_only": schedules[*si].1, "signers_send_once": honest, "cuts": cuts, "outcome": r.outcome}));
         }
         for v in r.violations {
             rep.push_violation(v);
@@ -280,6 +297,7 @@ pub fn run(ctx: &Ctx) -> ! {
     }
     rep.extra("crash_runs_per_point", json!(points_hit));
     rep.extra("crash_runs", json!(jobs.len()));
+    rep.assume("every crash cut is followed by two closing environments: signers that resubmit in every cycle, and honest signers that send each signature until it is acknowledged once (201/202) and never again");
     rep.assume("a crash is modelled as the loss of everything after an await point between persistence steps; torn SQLite pages / power loss are not modelled");
     rep.assume("an entity certified by two certificates after a crash between certificate insert and open-message update is reported as an observation: C15 does not forbid it");
     rep.finish(ctx)
